@@ -448,7 +448,7 @@ fn check_cap(ctx: &mut Ctx, c: &Case, cap: &Captured, req: &str) {
     if let Err(e) = oracle::normal_form(&c.old, &c.new, c.o_off, c.n_off, ops) {
         ctx.violation("C09", req, e);
     }
-    if c.dl.is_none() {
+    {
         if let Err(e) = oracle::carried_exact(r, ops) {
             // attribution: does the failure disappear with the swap repair on?
             let mut c2 = c.clone();
@@ -457,6 +457,8 @@ fn check_cap(ctx: &mut Ctx, c: &Case, cap: &Captured, req: &str) {
             let fixed = cap2.ops.as_ref().map_or(false, |o2| oracle::carried_exact(r, o2).is_ok());
             ctx.violation_k("C11", req, e, if fixed { Some("KF-compact-swap") } else { None });
         }
+    }
+    if c.dl.is_none() {
         if c.alg != Algorithm::Patience {
             let l = oracle::lcs_len(&o, &n);
             if d + i != o.len() + n.len() - 2 * l || e != l {
